@@ -444,6 +444,10 @@ def kafka(ctx, thorough):
     import itertools
     ctx.tlc_model("ProducerKafka", "k.cfg", files={"k.cfg": KAFKA_CFG % "FALSE"}, workers=4)
     ctx.tlc_must_fail("ProducerKafka", "kd.cfg", files={"kd.cfg": KAFKA_CFG % "TRUE"}, expect="HandedExactlyOnce", workers=4)
+    # the channels between the loop and the library (unbuffered Errors(), no intake while a refused request is being reported):
+    # the loop's select keeps both sides moving; "take a waiting report, then a plain send" must be refuted (Progress)
+    ctx.tlc_model("ProducerKafkaChan", "ProducerKafkaChan.cfg", workers=4)
+    ctx.tlc_must_fail("ProducerKafkaChan", "ProducerKafkaChanBlocking.cfg", expect="Progress", workers=4)
     drv = ctx.go_build_test("producer", ["producer/rawsocket_verif_test.go", "producer/kafka_verif_test.go"])
     d = ctx.subdir("c14k")
     n = 6
